@@ -262,6 +262,11 @@ func (pkg *pkg) Print() error {
 }
 
 func (pkg *pkg) Delete() error {
+	if pkg.fullpath == "" {
+		// a package without a file of its own (only an external test, only an unparsable derived.gen.go) has no
+		// known directory: the relative name would be the derived.gen.go of the working directory.
+		return nil
+	}
 	filename := pkg.Filename()
 	_, err := os.Stat(filename)
 	if err != nil {
